@@ -140,6 +140,7 @@ def sharing(sid, mutate, **slots):
         if i in idst:
             return "a decoded result shares a constructed object with the guiding type"
     before_t = _snap_type(spec, t)
+    before_2 = absval(t, w2)
     # mutate result 1
     k = t.kind
     if k in ("SEQ", "SET"):
@@ -160,7 +161,7 @@ def sharing(sid, mutate, **slots):
         w1.setComponentByName(name, 77)
     else:
         raise Skip()
-    if not same(t, absval(t, w2), av):
+    if not same(t, absval(t, w2), before_2):
         return "mutating one decoded result changed the other"
     if _snap_type(spec, t) != before_t:
         return "mutating a decoded result changed the guiding type"
@@ -263,7 +264,7 @@ def interleave(sa, sb, ca, cbi, p0, p1, p2, p3, p4, p5):
 
 
 FIX = {"o0": C(65), "o2": C(67), "o3": C(0), "i0": C(127), "i1": C(1), "i2": C(0), "c0": C(128), "c1": C(65), "a2": C(128), "o1": C(66), "m": C(3), "e": C(1)}
-PICK = ("int", "octs", "bits", "bool.E", "seq", "seqof_int", "setof_octs", "choice", "set_mixed", "seq_nest")
+PICK = ("int", "octs", "bits", "bool.E", "seq", "seqof_int", "setof_octs", "choice", "set_mixed", "seq_nest", "seq_optc")
 OBLIGATIONS = []
 for e in all_entries():
     quick = e.id in PICK
